@@ -47,7 +47,21 @@ UNIT_TERMS = {
     "km/h": [["k", "m", 1, 1], ["", "h", -1, 1]],
     "m2": [["", "m", 2, 1]], "cm2": [["c", "m", 2, 1]],
     "K": [["", "K", 1, 1]], "mol": [["", "mol", 1, 1]],
+    "Cel": [["", "Cel", 1, 1]], "degF": [["", "degF", 1, 1]],
 }
+# temperatures convert with an offset; the pairwise formulas (the zero of one scale is not
+# the zero of the other, so "0" is a value like any other)
+TEMP = ("K", "Cel", "degF")
+_TEMP = {
+    ("K", "Cel"): lambda x: x - 273.15, ("K", "degF"): lambda x: (x - 273.15) * 9 / 5 + 32,
+    ("Cel", "K"): lambda x: x + 273.15, ("Cel", "degF"): lambda x: (x * 9 / 5) + 32,
+    ("degF", "K"): lambda x: ((x - 32) * 5 / 9) + 273.15, ("degF", "Cel"): lambda x: (x - 32) * 5 / 9,
+}
+
+
+def temp_convert(x, u1, u2):
+    return x if u1 == u2 else _TEMP[(u1, u2)](x)
+
 FAMILY = {
     "length": ["m", "cm", "km", "mm", "dam", "in"],
     "time": ["s", "ms", "min", "h"],
@@ -55,6 +69,7 @@ FAMILY = {
     "energy": ["J", "erg", "kJ", "eV"],
     "velocity": ["m/s", "km/s", "km/h"],
     "area": ["m2", "cm2"],
+    "temperature": ["K", "Cel", "degF"],
 }
 # exact power-of-ten style factors for integer nodes
 INT_SAFE = {"length": ["m", "cm", "km", "mm"], "time": ["s", "ms"], "mass": ["g", "kg", "mg"]}
@@ -208,6 +223,8 @@ class Env:
             raise Abort("unit given for a node defined without unit", "C14", where)
         if self.units.dims(unit_from) != self.units.dims(unit_to):
             raise Abort("unit of another dimension", "C14", [where, unit_from, unit_to])
+        if unit_from in TEMP and unit_to in TEMP:
+            return map_leaves(value, lambda x: temp_convert(x, unit_from, unit_to))
         k = self.units.factor(unit_from) / self.units.factor(unit_to)
         return map_leaves(value, lambda x: x * k)
 
@@ -766,7 +783,10 @@ def check_constraints(env, node, margin=0.0):
     n = 0
     if v is None:
         if node["options"] or node["condition"] is not None or node["format"] is not None:
-            raise Unspecified("constrained node without value")
+            if node.get("declared") or node.get("cond_bad") or node.get("imported"):
+                raise Unspecified("constrained node without value")
+            # none equals no option, makes no condition true and matches no format
+            raise Abort("constrained node set to none", "C16", [node["path"]])
         return 0
     if node["options"]:
         n += 1
